@@ -182,6 +182,14 @@ func runC14(c *Ctx) {
 		r.Check("R14.5", "renderer packages", "no call to AddError/AddErrorList", 0, true, "")
 	}
 
+	// a render shows the table the wrapper holds NOW: whatever a renderer keeps between renders (the HTML wrapper's
+	// parsed template) is re-bound to the current wrapper and table before it is used (C06's R06.3), so the bytes do
+	// not depend on which wrapper value, or which table, was rendered first
+	r.Rule("R14.6", "state a renderer keeps between renders is re-bound to the current table before each use")
+	importPremises(c, "R14.6", "kept-state premise ", "the output would depend on what was rendered before", func(o *Ob) bool {
+		return o.Rule == "R06.3" && (strings.Contains(o.Construct, "rebound") || strings.Contains(o.Construct, "own template"))
+	}, func() { runC06(c) })
+
 	// R14.3 / R14.4 built-in callbacks
 	ncb := 0
 	for _, fn := range c.LibFuncs() {
